@@ -62,7 +62,7 @@ def case_strategy(draw, variant, ops=None, mask_kinds=("none", "none", "bool", "
     if nullable and live and draw(st.sampled_from([True, False, False])):
         victim = draw(st.sampled_from(live))
         vspec["vals"] = [None if labels[i] == victim else v for i, v in enumerate(vspec["vals"])]
-    mask = draw(S.mask_spec(n, kinds=mask_kinds))
+    mask = draw(S.mask_spec(n, kinds=mask_kinds, steps=layout == "contiguous"))
     op = draw(st.sampled_from(ops or ops_for(vspec["dtype"])))
     # earlier masked calls on the same grouping object, with masks of the examined mask's kind (boolean masks and
     # position arrays of equal length go through ONE buffer that is refilled in place between the calls)
@@ -72,7 +72,7 @@ def case_strategy(draw, variant, ops=None, mask_kinds=("none", "none", "bool", "
             if mask["kind"] == "pos" and n:
                 prior.append({"kind": "pos", "vals": draw(st.lists(st.integers(0, n - 1), min_size=len(mask["vals"]), max_size=len(mask["vals"])))})
             else:
-                prior.append(draw(S.mask_spec(n, kinds=(mask["kind"],))))
+                prior.append(draw(S.mask_spec(n, kinds=(mask["kind"],), steps=layout == "contiguous")))
     render = {
         "kc": draw(st.sampled_from(["np", "np", "series", "list"])) if n > 0 else "np",
         "vc": draw(st.sampled_from(["np", "series"])),
